@@ -38,7 +38,7 @@ import warnings
 import numpy as np
 import torch
 
-from common import ROOT, Check, InfraError, ddmin
+from common import REPO, ROOT, Check, InfraError, ddmin
 
 warnings.filterwarnings("ignore")
 torch.set_num_threads(1)      # tiny networks: threads only add contention
@@ -63,6 +63,38 @@ FALLBACKS = {
     "cnn": {"add_layer": ["add_channel"], "remove_layer": ["add_channel"],
             "change_kernel": ["add_layer", "add_channel"]},
 }
+
+
+# ----------------------------------------------------------------------------- whose exception is it?
+_HARNESS_DIR = str(ROOT / "harness")
+
+
+def impl_fault(e: BaseException):
+    """An exception raised by the IMPLEMENTATION on a legal call (constructor, mutation method,
+    re-creation, forward pass, clone, rebuild, load_state_dict, attribute of the module) is a finding
+    about the implementation, never an infrastructure error.  Returns its text if a frame of the
+    traceback lies inside the tree under test or the exception was raised outside the harness' own
+    code (torch / numpy on behalf of the module); None if the harness itself is at fault."""
+    if isinstance(e, InfraError):
+        return None
+    files = []
+    tb = e.__traceback__
+    while tb is not None:
+        files.append(tb.tb_frame.f_code.co_filename)
+        tb = tb.tb_next
+    if any(f.startswith(str(REPO)) for f in files) or (files and not files[-1].startswith(_HARNESS_DIR)):
+        return f"{type(e).__name__}: {str(e)[:200]}"
+    return None
+
+
+def fault_text(e: BaseException) -> str:
+    """text of an implementation fault; a fault of the harness itself is re-raised as InfraError"""
+    msg = impl_fault(e)
+    if msg is None:
+        if isinstance(e, InfraError):
+            raise e
+        raise InfraError(f"harness bug: {type(e).__name__}: {e}") from e
+    return msg
 
 
 # ----------------------------------------------------------------------------- numpy draws
@@ -145,6 +177,10 @@ def obs_space(name: str):
         return sp.Box(0, 1, (2, 16, 16), dtype=f)
     if name == "img20":
         return sp.Box(0, 1, (2, 20, 20), dtype=f)
+    if name == "imgtall":
+        return sp.Box(0, 1, (3, 40, 8), dtype=f)
+    if name == "imgwide":
+        return sp.Box(0, 1, (3, 8, 40), dtype=f)
     if name == "seq":
         return sp.Box(-1, 1, (4, 3), dtype=f)
     if name == "dict":
@@ -205,6 +241,10 @@ def build(spec: dict):
                "ValueNetwork": ValueNetwork, "DeterministicActor": DeterministicActor,
                "StochasticActor": StochasticActor}[spec["cls"]]
         kw = dict(cfg)
+        if spec.get("sample_depth"):       # multi-agent image observations: Conv3d over the stacked agents
+            shape = obs_space(spec["obs"]).shape
+            kw["encoder_config"] = dict(kw["encoder_config"],
+                                        sample_input=torch.zeros(1, shape[0], spec["sample_depth"], shape[1], shape[2]))
         if spec["cls"] != "ValueNetwork":
             kw["action_space"] = act_space(spec["act"])
         if spec["cls"] == "RainbowQNetwork":
@@ -253,6 +293,9 @@ def forward_check(spec: dict, m, batches=(1, 2, 3)) -> list[str]:
                 else:
                     sp = _spaces()
                     obs = sample_obs(obs_space(spec["obs"]), b)
+                    if spec.get("sample_depth"):
+                        c_, h_, w_ = obs_space(spec["obs"]).shape
+                        obs = torch.rand(b, c_, spec["sample_depth"], h_, w_)
                     cls = spec["cls"]
                     if cls == "ContinuousQNetwork":
                         out, want = m(obs, torch.rand(b, 2)), (b, 1)
@@ -274,7 +317,7 @@ def forward_check(spec: dict, m, batches=(1, 2, 3)) -> list[str]:
             elif not torch.isfinite(out.float()).all():
                 problems.append(f"forward: non-finite output (batch {b})")
         except Exception as e:
-            problems.append(f"forward raised {type(e).__name__}: {str(e)[:160]} (batch {b})")
+            problems.append(f"forward raised {fault_text(e)} (batch {b})")
             break
     return problems
 
@@ -627,12 +670,16 @@ def do_step(spec: dict, m, step: dict, start_ok: dict, oracle: bool = True) -> S
     name, kwargs = step["method"], dict(step.get("kwargs", {}))
     if "kernel_size" in kwargs and isinstance(kwargs["kernel_size"], list):
         kwargs["kernel_size"] = tuple(kwargs["kernel_size"])
-    r.problems, r.tags, r.raised, r.ret = [], [], None, None
+    r.problems, r.tags, r.raised, r.ret, r.applied, r.log = [], [], None, None, None, []
+    r.before = r.after = {}
+    r.mline = f"arch mut {name}"
     try:
         owner, leaf, kind = resolve(m, name)
+        r.before = arch_state(owner, kind)
     except Exception as e:
-        raise InfraError(f"cannot resolve {name}: {e}")
-    r.before = arch_state(owner, kind)
+        r.raised = fault_text(e)
+        r.problems.append(f"advertised method {name} cannot be resolved / its module read: {r.raised}")
+        return r
     draws = Draws(step.get("seed", 0), step.get("draw", "rand"))
     try:
         with patched_numpy(draws):
@@ -661,10 +708,13 @@ def do_step(spec: dict, m, step: dict, start_ok: dict, oracle: bool = True) -> S
         return r
     if not oracle:
         return r
-    r.problems += effect_check(kind, leaf, applied_leaf, r.before, r.after, kwargs, r.log, owner2)
-    if r.applied is not None and "." in name and r.applied.rsplit(".", 1)[0] != name.rsplit(".", 1)[0]:
-        r.problems.append(f"{name} reported as {r.applied}")
-    r.problems += bounds_check(spec, m, start_ok)
+    try:
+        r.problems += effect_check(kind, leaf, applied_leaf, r.before, r.after, kwargs, r.log, owner2)
+        if r.applied is not None and "." in name and r.applied.rsplit(".", 1)[0] != name.rsplit(".", 1)[0]:
+            r.problems.append(f"{name} reported as {r.applied}")
+        r.problems += bounds_check(spec, m, start_ok)
+    except Exception as e:
+        r.problems.append(f"reading the mutated architecture raised {fault_text(e)}")
     r.problems += forward_check(spec, m)
     r.problems += rebuild_check(m)
     return r
@@ -672,7 +722,10 @@ def do_step(spec: dict, m, step: dict, start_ok: dict, oracle: bool = True) -> S
 
 def rebuild_check(m) -> list[str]:
     problems = []
-    sd = m.state_dict()
+    try:
+        sd = m.state_dict()
+    except Exception as e:
+        return [f"state_dict() raised {fault_text(e)}"]
     try:
         init = m.init_dict
         re = type(m)(**copy.deepcopy(init))
@@ -710,24 +763,34 @@ def canon_model(lines: list[str]) -> list[str]:
 def run_chain(chk: Check, spec: dict, steps: list[dict], policy: dict, oracle: bool = True):
     """fresh object, apply `steps` in order (each optionally on a clone, as the pipeline does).
     returns dict(problems, diff, impl, model, tags, applied)"""
-    m = build(spec)
-    start_ok = start_bounds(spec, m)
-    lines = ["reset"] + define_lines(spec, m, policy)
-    n0 = len(lines)
     impl, tags, problems, applied = [], [], [], []
+    try:
+        m = build(spec)
+        start_ok = start_bounds(spec, m)
+        lines = ["reset"] + define_lines(spec, m, policy)
+        first = [summary(spec, m), shapes(m), " ".join(sorted(m.mutation_methods))]
+    except Exception as e:
+        return {"problems": [f"constructing / describing {spec.get('id')} raised {fault_text(e)}"], "diff": None,
+                "impl": [], "model": [], "tags": [], "applied": [], "final": None}
+    n0 = len(lines)
     p0 = forward_check(spec, m) + rebuild_check(m) if oracle else []
     problems += [f"before any mutation: {p}" for p in p0]
     lines += ["arch init", "arch shapes", "arch methods"]
-    impl += [summary(spec, m), shapes(m), " ".join(sorted(m.mutation_methods))]
+    impl += first
     marks = [(n0, "start", 3)]
     for j, st in enumerate(steps):
         if st.get("clone", True):
             try:
                 m = m.clone()
             except Exception as e:
-                problems.append(f"step {j}: clone() raised {type(e).__name__}: {str(e)[:160]}")
+                problems.append(f"step {j}: clone() raised {fault_text(e)}")
                 break
-        if st["method"] not in m.mutation_methods:
+        try:
+            advertised = st["method"] in m.mutation_methods
+        except Exception as e:
+            problems.append(f"step {j}: mutation_methods raised {fault_text(e)}")
+            break
+        if not advertised:
             break               # not an advertised method here (can happen while shrinking): chain ends
         r = do_step(spec, m, st, start_ok, oracle)
         tags += r.tags
@@ -735,9 +798,14 @@ def run_chain(chk: Check, spec: dict, steps: list[dict], policy: dict, oracle: b
         problems += [f"step {j} {st['method']}: {p}" for p in r.problems]
         if r.raised is not None:
             break
+        try:
+            obs = observe(spec, m, r.applied)
+        except Exception as e:
+            problems.append(f"step {j} {st['method']}: describing the mutated network raised {fault_text(e)}")
+            break
         marks.append((len(lines), f"step {j} {st['method']}", 4))
         lines += [r.mline, "arch init", "arch shapes", "arch methods"]
-        impl += observe(spec, m, r.applied)
+        impl += obs
     out = chk.driver.run(lines)
     chk.corr["model_lines"] += len(lines)
     if any(o == "bad-op" for o in out[:n0]):
@@ -775,10 +843,20 @@ def report(chk: Check, suite: str, spec: dict, steps: list[dict], res: dict, pol
     d = r2["diff"]
     if classify_diff(r2["impl"][d], r2["model"][d]) in known:
         return 0
-    chk.violation(f"[{suite}] implementation and Arch model disagree at observable {d}: impl={r2['impl'][d][:160]!r} "
-                  f"model={r2['model'][d][:160]!r}; property oracle holds on this chain and its shrinks",
-                  replay, no_input=True)
+    # reported at the end of the run, after every violation that comes with a concrete failing input
+    _DEFERRED.append((f"[{suite}] implementation and Arch model disagree at observable {d}: "
+                      f"impl={r2['impl'][d][:160]!r} model={r2['model'][d][:160]!r}; property oracle holds on this "
+                      f"chain and its shrinks", replay))
     return 1
+
+
+_DEFERRED: list = []
+
+
+def flush_deferred(chk: Check) -> None:
+    while _DEFERRED:
+        what, replay = _DEFERRED.pop(0)
+        chk.violation(what, replay, no_input=True)
 
 
 def classify(spec, steps, what: str):
@@ -843,7 +921,7 @@ def actions_for(spec: dict, m, small: bool) -> list[dict]:
                     acts.append({"method": name, "kwargs": {"numb_new_channels": n}})
         elif leaf == "change_kernel":
             for hl in (0, 1):
-                for k in (1, 2, 3):
+                for k in (1, 3, 7):
                     acts.append({"method": name, "kwargs": {"hidden_layer": hl, "kernel_size": k}})
     return acts
 
@@ -853,14 +931,20 @@ def explore(chk: Check, suite: str, spec: dict, policy: dict, depth_full: int, d
     """all method/argument sequences up to `depth_full` (every sequence, executed on clones of real
     objects), then the closure of the reachable architecture graph (states identified by their
     constructor description) up to `depth_graph`.  One driver batch for the whole tree."""
-    root = build(spec)
-    start_ok = start_bounds(spec, root)
-    lines = ["reset"] + define_lines(spec, root, policy) + ["arch save 0"]
+    try:
+        root = build(spec)
+        start_ok = start_bounds(spec, root)
+        lines = ["reset"] + define_lines(spec, root, policy) + ["arch save 0"]
+        seen = {summary(spec, root)}
+    except Exception as e:
+        fault_text(e)
+        res = run_chain(chk, spec, [], policy)       # reports the construction failure with the spec as replay
+        report(chk, suite, spec, [], res, policy, known)
+        return 1, 0
     n0 = len(lines)
     expect: list = []          # (line index, expected canonical answers, node id)
     nodes = {0: {"m": root, "path": [], "depth": 0}}
     frontier = [0]
-    seen = {summary(spec, root)}
     nid = 0
     failing: list = []
     ncases = 0
@@ -873,7 +957,11 @@ def explore(chk: Check, suite: str, spec: dict, policy: dict, depth_full: int, d
             try:
                 acts = actions_for(spec, parent["m"].clone(), small)   # names are taken from the offspring
             except Exception:
-                acts = actions_for(spec, parent["m"], small)
+                try:
+                    acts = actions_for(spec, parent["m"], small)
+                except Exception as e:
+                    failing.append((parent["path"], [f"listing the advertised methods raised {fault_text(e)}"]))
+                    continue
             for act in acts:
                 if nid >= max_nodes:
                     truncated = True
@@ -882,7 +970,7 @@ def explore(chk: Check, suite: str, spec: dict, policy: dict, depth_full: int, d
                 try:
                     child = parent["m"].clone()
                 except Exception as e:
-                    failing.append((parent["path"] + [st], [f"clone() raised {type(e).__name__}: {str(e)[:160]}"]))
+                    failing.append((parent["path"] + [st], [f"clone() raised {fault_text(e)}"]))
                     continue
                 r = do_step(spec, child, st, start_ok)
                 ncases += 1
@@ -895,10 +983,15 @@ def explore(chk: Check, suite: str, spec: dict, policy: dict, depth_full: int, d
                 if r.problems:
                     failing.append((path, r.problems))
                     continue
+                try:
+                    obs = observe(spec, child, r.applied)
+                    s = summary(spec, child)
+                except Exception as e:
+                    failing.append((path, [f"describing the mutated network raised {fault_text(e)}"]))
+                    continue
                 nid += 1
                 lines += [f"arch load {pid}", r.mline, "arch init", "arch shapes", "arch methods", f"arch save {nid}"]
-                expect.append((len(lines) - 5, observe(spec, child, r.applied), path))
-                s = summary(spec, child)
+                expect.append((len(lines) - 5, obs, path))
                 if depth < depth_full or s not in seen:
                     nodes[nid] = {"m": child, "path": path, "depth": depth}
                     nxt.append(nid)
@@ -921,6 +1014,16 @@ def explore(chk: Check, suite: str, spec: dict, policy: dict, depth_full: int, d
     chk.corr["model_lines"] += len(lines)
     if any(o == "bad-op" for o in out[:n0]):
         raise InfraError(f"model rejected the definition of {spec['id']}: {list(zip(lines[:n0], out[:n0]))}")
+    seen_msgs = set()
+    for path, problems in failing:
+        sig = (path[-1]["method"] if path else "-", problems[0].split(":")[0][:60])
+        if sig in seen_msgs or len(seen_msgs) >= 3:
+            continue
+        seen_msgs.add(sig)
+        res = run_chain(chk, spec, path, policy)
+        if not res["problems"]:
+            res["problems"] = problems
+        report(chk, suite, spec, path, res, policy, known)
     ndiff = 0
     reported = 0
     for pos, want, path in expect:
@@ -934,16 +1037,6 @@ def explore(chk: Check, suite: str, spec: dict, policy: dict, depth_full: int, d
             reported += 1
         elif got != want:
             ndiff += 1
-    seen_msgs = set()
-    for path, problems in failing:
-        sig = (path[-1]["method"], problems[0].split(":")[0][:60])
-        if sig in seen_msgs or len(seen_msgs) >= 3:
-            continue
-        seen_msgs.add(sig)
-        res = run_chain(chk, spec, path, policy)
-        if not res["problems"]:
-            res["problems"] = problems
-        report(chk, suite, spec, path, res, policy, known)
     chk.dist[f"states-{spec['id']}"] = len(seen)
     return ncases, ndiff
 
@@ -952,24 +1045,35 @@ def walk(chk: Check, suite: str, spec: dict, policy: dict, length: int, known: s
          twin: bool) -> tuple[int, int]:
     """seeded walk: names from `sample_mutation_method`, no arguments (numpy draws), optionally a twin
     network that receives the applied method with the returned kwargs"""
-    m = build(spec)
-    t = build(dict(spec, seed=spec.get("seed", 0) + 1)) if twin else None
-    start_ok = start_bounds(spec, m)
+    try:
+        m = build(spec)
+        t = build(dict(spec, seed=spec.get("seed", 0) + 1)) if twin else None
+        start_ok = start_bounds(spec, m)
+    except Exception as e:
+        fault_text(e)
+        res = run_chain(chk, spec, [], policy)
+        report(chk, suite, spec, [], res, policy, known)
+        return 1, 0
     gen = np.random.default_rng(chk.rng.randrange(1 << 30))
     steps = []
     problems = []
     for j in range(length):
-        if not m.mutation_methods:
-            break
         st = {"method": None, "seed": chk.rng.randrange(1 << 30), "clone": chk.rng.random() < clone_prob}
-        if st["clone"]:
-            try:
-                m = m.clone()
-            except Exception:
-                st["method"] = str(m.sample_mutation_method(0.3, gen))
-                steps.append(st)
-                break           # run_chain below reproduces and reports it
-        name = st["method"] = str(m.sample_mutation_method(0.3, gen))   # sampled from the offspring, as the pipeline does
+        try:
+            if not m.mutation_methods:
+                break
+            if st["clone"]:
+                try:
+                    m = m.clone()
+                except Exception:
+                    st["method"] = str(m.sample_mutation_method(0.3, gen))
+                    steps.append(st)
+                    break           # run_chain below reproduces and reports it
+            # sampled from the offspring, as the pipeline does
+            name = st["method"] = str(m.sample_mutation_method(0.3, gen))
+        except Exception as e:
+            problems.append((j, [f"sample_mutation_method / mutation_methods raised {fault_text(e)}"]))
+            break
         r = do_step(spec, m, st, start_ok, oracle=False)
         steps.append(st)
         if r.raised is not None:
@@ -980,17 +1084,20 @@ def walk(chk: Check, suite: str, spec: dict, policy: dict, length: int, known: s
             ts = {"method": r.applied, "kwargs": tk, "seed": 1, "clone": True}
             try:
                 t = t.clone()
-                rt = do_step(spec, t, ts, start_ok, oracle=True)
-                tp = rt.problems
+                if ts["method"] in t.mutation_methods:
+                    rt = do_step(spec, t, ts, start_ok, oracle=True)
+                    tp = rt.problems
+                else:
+                    tp = []
+                if not tp and summary(spec, t) != summary(spec, m):
+                    # not part of C03: add_layer of a CNN returns no kwargs, so the twin draws its own kernel/stride
+                    chk.dist["twin-diverged"] += 1
+                    t = m.clone()
             except Exception as e:
-                tp = [f"clone() raised {type(e).__name__}: {str(e)[:160]}"]
+                tp = [f"clone() / description raised {fault_text(e)}"]
             if tp:
                 problems.append((j, [f"twin: {p}" for p in tp]))
                 break
-            if summary(spec, t) != summary(spec, m):
-                # not part of C03: add_layer of a CNN returns no kwargs, so the twin draws its own kernel/stride
-                chk.dist["twin-diverged"] += 1
-                t = m.clone()
     res = run_chain(chk, spec, steps, policy)
     key = [spec["id"], "walk", [(s["method"], s["seed"], s["clone"]) for s in steps]]
     chk.case(key, nontrivial=len(steps) > 1,
@@ -1021,7 +1128,12 @@ def subjects(tier: str) -> list[dict]:
     add("cnn-small", True, kind="cnn", cfg=dict(input_shape=[2, 16, 16], num_outputs=3, **small_cnn_cfg()))
     add("cnn-bn-small", True, kind="cnn", cfg=dict(input_shape=[2, 20, 16], num_outputs=3,
                                                    **small_cnn_cfg(ch=(2, 2), k=(3, 2), s=(2, 1), layer_norm=True)))
-    add("cnn3d-small", True, kind="cnn3d", depth=2, cfg=dict(input_shape=[2, 16, 16], num_outputs=3, **small_cnn_cfg()))
+    add("cnn-tall-small", True, kind="cnn", cfg=dict(input_shape=[2, 40, 8], num_outputs=3,
+                                                     **small_cnn_cfg(ch=(2, 2), k=(3, 3), s=(1, 1))))
+    add("cnn-wide-small", True, kind="cnn", cfg=dict(input_shape=[2, 8, 40], num_outputs=3,
+                                                     **small_cnn_cfg(ch=(2, 2), k=(3, 3), s=(1, 1))))
+    add("cnn3d-small", True, kind="cnn3d", depth=3, cfg=dict(input_shape=[2, 16, 16], num_outputs=3,
+                                                             **small_cnn_cfg(ch=(2, 2), k=(3, 3), s=(1, 1))))
     add("lstm-small", True, kind="lstm", cfg=dict(input_size=3, hidden_size=3, num_outputs=2, num_layers=1,
                                                   min_hidden_size=2, max_hidden_size=5, min_layers=1, max_layers=3))
     add("simba-small", True, kind="simba", cfg=dict(num_inputs=3, num_outputs=2, hidden_size=3, num_blocks=1,
@@ -1053,6 +1165,9 @@ def subjects(tier: str) -> list[dict]:
                                      min_layers=1, max_layers=2)))
     add("detactor-tuple-small", True, kind="net", cls="DeterministicActor", obs="tuple", act="box",
         cfg=dict(encoder_config=multi_cfg(True), head_config=head, **lat))
+    add("contq-img3d-small", True, kind="net", cls="ContinuousQNetwork", obs="img", act="box", sample_depth=3,
+        cfg=dict(n_agents=3, encoder_config=small_cnn_cfg(ch=(2, 2), k=(3, 3), s=(1, 1), hi_l=2, hi_c=4),
+                 head_config=head, **lat))
     add("stoch-vec-small", True, kind="net", cls="StochasticActor", obs="vec", act="box",
         cfg=dict(encoder_config=enc_mlp, head_config=head, **lat))
     add("stoch-img-small", True, kind="net", cls="StochasticActor", obs="img", act="disc",
@@ -1081,6 +1196,8 @@ def subjects(tier: str) -> list[dict]:
     add("multi-default", False, kind="multi", obs="dict", cfg=dict(num_outputs=8))
     add("q-vec-default", False, kind="net", cls="QNetwork", obs="vec", act="disc", cfg={})
     add("q-img-default", False, kind="net", cls="QNetwork", obs="img20", act="disc", cfg={})
+    add("q-imgtall-default", False, kind="net", cls="QNetwork", obs="imgtall", act="disc", cfg={})
+    add("value-imgwide-default", False, kind="net", cls="ValueNetwork", obs="imgwide", cfg={})
     add("rainbow-default", False, kind="net", cls="RainbowQNetwork", obs="vec", act="disc", cfg={})
     add("contq-default", False, kind="net", cls="ContinuousQNetwork", obs="vec", act="box", cfg={})
     add("value-dict-default", False, kind="net", cls="ValueNetwork", obs="dict", cfg={})
@@ -1092,10 +1209,12 @@ def subjects(tier: str) -> list[dict]:
 
 # ----------------------------------------------------------------------------- probes for analysed defects
 def probe_policy(chk: Check) -> tuple[dict, set]:
-    """Probes for the specific, analysed defects of the design round (each checks exactly one call
-    site).  A probe that fails goes through `chk.finding`: KNOWN-FINDING if listed open in
-    known_findings.json, otherwise a VIOLATION.  Returns the behaviour of the tree under test at the
-    model's two switch points and the ids already reported (the suites do not report them again)."""
+    """Probes for the specific, analysed defects of the design / build round (each checks exactly one
+    call site).  A probe that fails goes through `chk.finding`: KNOWN-FINDING if listed open in
+    known_findings.json, otherwise a VIOLATION.  An exception the implementation raises inside a probe
+    is reported as a violation with the probe's method chain as replay.  Returns the behaviour of
+    the tree under test at the model's two switch points and the ids already reported (the suites do
+    not report those again)."""
     handled: set = set()
     policy = {"forward_head": True, "clamp_kernel": True}
     by_id = {s["id"]: s for s in subjects("quick")}
@@ -1104,116 +1223,160 @@ def probe_policy(chk: Check) -> tuple[dict, set]:
         handled.add(fid)
         chk.finding(fid, detail, dict({"suite": "probe", "spec": spec, "steps": steps, "policy": dict(policy)}, **extra))
 
+    def guarded(name, spec, steps, fn):
+        try:
+            fn(spec, steps)
+        except Exception as e:
+            msg = fault_text(e)
+            res = run_chain(chk, spec, steps, policy) if steps else {"problems": []}
+            if res["problems"]:
+                report(chk, "probe:" + name, spec, steps, res, policy, handled)
+            else:
+                chk.violation(f"[probe:{name}] the implementation raised {msg}",
+                              {"suite": "probe", "spec": spec, "steps": steps, "policy": dict(policy),
+                               "oracle_problems": [msg]})
+
     # D21: EvolvableResNet channel mutations leave an np.int64 that the constructor refuses
-    spec = by_id["resnet-default"]
-    m = build(spec)
-    steps = [{"method": "add_channel", "draw": "lo", "seed": 1, "clone": False}]
-    with patched_numpy(Draws(1, "lo")):
-        m.add_channel()
-    bad = rebuild_check(m)
-    if bad:
-        finding(FIND_RESNET, f"EvolvableResNet.add_channel() (numpy draw, as architecture_mutate calls it) leaves "
-                f"channel_size a {type(m.channel_size).__name__}: {bad[0]}", spec, steps, oracle_problems=bad)
+    def p_resnet(spec, steps):
+        m = build(spec)
+        with patched_numpy(Draws(1, "lo")):
+            m.add_channel()
+        bad = rebuild_check(m)
+        if bad:
+            finding(FIND_RESNET, f"EvolvableResNet.add_channel() (numpy draw, as architecture_mutate calls it) leaves "
+                    f"channel_size a {type(m.channel_size).__name__}: {bad[0]}", spec, steps, oracle_problems=bad)
+    guarded("resnet", by_id["resnet-default"], [{"method": "add_channel", "draw": "lo", "seed": 1, "clone": False}], p_resnet)
+
     # D20: StochasticActor advertises head_net.* ; do they do anything?
-    spec = by_id["stoch-vec-small"]
-    m = build(spec)
-    before = list(head_of(m).hidden_size)
-    with patched_numpy(Draws(1, "lo")):
-        getattr(m, "head_net.add_layer")()
-    if m.last_mutation_attr is None and list(head_of(m).hidden_size) == before:
-        policy["forward_head"] = False
-        finding(FIND_HEAD, "StochasticActor advertises head_net.add_layer/remove_layer/add_node/remove_node "
-                "but calling them changes nothing and sets last_mutation_attr=None (the wrapped head's "
-                "mutations are disabled by the EvolvableDistribution wrapper)", spec,
-                [{"method": "head_net.add_layer", "draw": "lo", "seed": 1, "clone": False}])
+    def p_head(spec, steps):
+        m = build(spec)
+        before = list(head_of(m).hidden_size)
+        with patched_numpy(Draws(1, "lo")):
+            getattr(m, "head_net.add_layer")()
+        if m.last_mutation_attr is None and list(head_of(m).hidden_size) == before:
+            policy["forward_head"] = False
+            finding(FIND_HEAD, "StochasticActor advertises head_net.add_layer/remove_layer/add_node/remove_node "
+                    "but calling them changes nothing and sets last_mutation_attr=None (the wrapped head's "
+                    "mutations are disabled by the EvolvableDistribution wrapper)", spec, steps)
+    guarded("head", by_id["stoch-vec-small"], [{"method": "head_net.add_layer", "draw": "lo", "seed": 1, "clone": False}],
+            p_head)
+
     # nested methods after the encoder / head were re-created by a latent mutation (no clone in between)
-    spec = by_id["q-vec-small"]
-    m = build(spec)
-    steps = [{"method": "add_latent_node", "kwargs": {"numb_new_nodes": 1}, "clone": False},
-             {"method": "encoder.add_node", "kwargs": {"hidden_layer": 0, "numb_new_nodes": 1}, "clone": False}]
-    m.add_latent_node(numb_new_nodes=1)
-    if any(x.endswith("add_layer") and x.startswith("encoder.") for x in m.mutation_methods):
-        finding(FIND_LAYER, "after add_latent_node the re-created encoder advertises encoder.add_layer / "
-                "encoder.remove_layer again (EvolvableNetwork disables them only in __init__; a clone() hides them "
-                "again)", spec, steps[:1])
-    getattr(m, "encoder.add_node")(hidden_layer=0, numb_new_nodes=1)
-    bad = ([] if m.last_mutation_attr == "encoder.add_node" else
-           [f"last_mutation_attr={m.last_mutation_attr} after encoder.add_node"]) + rebuild_check(m)
-    if bad:
-        finding(FIND_STALE, "add_latent_node followed by encoder.add_node on the same object: the network still "
-                f"calls the method of the discarded encoder -> {bad[0]}", spec, steps, oracle_problems=bad)
+    def p_stale(spec, steps):
+        m = build(spec)
+        m.add_latent_node(numb_new_nodes=1)
+        if any(x.endswith("add_layer") and x.startswith("encoder.") for x in m.mutation_methods):
+            finding(FIND_LAYER, "after add_latent_node the re-created encoder advertises encoder.add_layer / "
+                    "encoder.remove_layer again (EvolvableNetwork disables them only in __init__; a clone() hides them "
+                    "again)", spec, steps[:1])
+        getattr(m, "encoder.add_node")(hidden_layer=0, numb_new_nodes=1)
+        bad = ([] if m.last_mutation_attr == "encoder.add_node" else
+               [f"last_mutation_attr={m.last_mutation_attr} after encoder.add_node"]) + rebuild_check(m)
+        if bad:
+            finding(FIND_STALE, "add_latent_node followed by encoder.add_node on the same object: the network still "
+                    f"calls the method of the discarded encoder -> {bad[0]}", spec, steps, oracle_problems=bad)
+    guarded("stale", by_id["q-vec-small"],
+            [{"method": "add_latent_node", "kwargs": {"numb_new_nodes": 1}, "clone": False},
+             {"method": "encoder.add_node", "kwargs": {"hidden_layer": 0, "numb_new_nodes": 1}, "clone": False}], p_stale)
+
     # change_kernel on a single-layer CNN encoder falls back on the disabled add_layer
-    spec = by_id["q-img-small"]
-    m = build(spec)
-    with patched_numpy(Draws(1, "lo")):
-        getattr(m, "encoder.change_kernel")()
-    if m.last_mutation_attr is None:
-        finding(FIND_CK_DEAD, "encoder.change_kernel on a network whose CNN encoder has one layer falls back on "
-                "add_layer, which is disabled for encoders: nothing changes and last_mutation_attr=None", spec,
-                [{"method": "encoder.change_kernel", "draw": "lo", "seed": 1, "clone": False}])
+    def p_ckdead(spec, steps):
+        m = build(spec)
+        with patched_numpy(Draws(1, "lo")):
+            getattr(m, "encoder.change_kernel")()
+        if m.last_mutation_attr is None:
+            finding(FIND_CK_DEAD, "encoder.change_kernel on a network whose CNN encoder has one layer falls back on "
+                    "add_layer, which is disabled for encoders: nothing changes and last_mutation_attr=None", spec, steps)
+    guarded("ck-dead", by_id["q-img-small"],
+            [{"method": "encoder.change_kernel", "draw": "lo", "seed": 1, "clone": False}], p_ckdead)
+
     # the Rainbow head must be rebuildable from its own constructor description
-    spec = by_id["rainbow-vec-small"]
-    h = build(spec).head_net
-    bad = rebuild_check(h)
-    if bad:
-        finding(FIND_DUELING, "DuelingDistributionalMLP.init_dict reports num_outputs = num_atoms instead of the "
-                f"number of actions, so type(head)(**head.init_dict) / head.clone() build another architecture: {bad[0]}",
-                spec, [], call="head_rebuild")
+    def p_dueling(spec, steps):
+        bad = rebuild_check(build(spec).head_net)
+        if bad:
+            finding(FIND_DUELING, "DuelingDistributionalMLP.init_dict reports num_outputs = num_atoms instead of the "
+                    f"number of actions, so type(head)(**head.init_dict) / head.clone() build another architecture: "
+                    f"{bad[0]}", spec, [], call="head_rebuild")
+    guarded("dueling", by_id["rainbow-vec-small"], [], p_dueling)
+
     # explicit kernel arguments of change_kernel
-    spec = {"id": "cnn-probe", "kind": "cnn", "cfg": dict(input_shape=[2, 16, 16], num_outputs=3,
-                                                          **small_cnn_cfg(ch=(2, 2), k=(3, 3), s=(1, 1)))}
-    m = build(spec)
-    step = {"method": "change_kernel", "kwargs": {"kernel_size": 15, "hidden_layer": 1}, "clone": False}
-    try:
-        m.change_kernel(kernel_size=15, hidden_layer=1)
-        clamped = m.kernel_size[1] != 15
-        bad = forward_check(spec, m, (1,))
-    except Exception as e:
-        clamped, bad = False, [f"{type(e).__name__}: {str(e)[:120]}"]
-    if not clamped:
-        policy["clamp_kernel"] = False
-    if bad:
-        finding(FIND_KERNEL, "EvolvableCNN.change_kernel(kernel_size=15, hidden_layer=1) on 16x16 input with "
-                f"kernels [3,3]: the explicit kernel is larger than the 14x14 feature map -> {bad[0]}",
-                spec, [step], oracle_problems=bad)
+    cfg2 = dict(input_shape=[2, 16, 16], num_outputs=3, **small_cnn_cfg(ch=(2, 2), k=(3, 3), s=(1, 1)))
+
+    def p_kernel(spec, steps):
+        m = build(spec)
+        try:
+            m.change_kernel(kernel_size=15, hidden_layer=1)
+            clamped = m.kernel_size[1] != 15
+            bad = forward_check(spec, m, (1,))
+        except Exception as e:
+            clamped, bad = False, [fault_text(e)]
+        if not clamped:
+            policy["clamp_kernel"] = False
+        if bad:
+            finding(FIND_KERNEL, "EvolvableCNN.change_kernel(kernel_size=15, hidden_layer=1) on 16x16 input with "
+                    f"kernels [3,3]: the explicit kernel is larger than the 14x14 feature map -> {bad[0]}",
+                    spec, steps, oracle_problems=bad)
+    guarded("kernel", {"id": "cnn-probe", "kind": "cnn", "cfg": cfg2},
+            [{"method": "change_kernel", "kwargs": {"kernel_size": 15, "hidden_layer": 1}, "clone": False}], p_kernel)
+
     # Conv3d: the kwargs returned by change_kernel must be applicable to a twin (what critics receive)
-    spec3 = {"id": "cnn3d-probe", "kind": "cnn3d", "depth": 2,
-             "cfg": dict(input_shape=[2, 16, 16], num_outputs=3, **small_cnn_cfg(ch=(2, 2), k=(3, 3), s=(1, 1)))}
-    a, b = build(spec3), build(spec3)
-    with patched_numpy(Draws(3, "hi")):
-        ret = a.change_kernel()
-    ret = {k: int(v) for k, v in ret.items()}
-    try:
-        b.change_kernel(**ret)
-        bad3 = forward_check(spec3, b, (1,))
-        if b.kernel_size != a.kernel_size:
-            bad3.append(f"twin kernels {b.kernel_size} != {a.kernel_size}")
-    except Exception as e:
-        bad3 = [f"{type(e).__name__}: {str(e)[:120]}"]
-    if bad3:
-        finding(FIND_KERNEL3D, f"Conv3d EvolvableCNN.change_kernel(**{ret}) - the kwargs the same method returned on "
-                f"a twin network, which is what architecture_mutate hands to the critics - fails: {bad3[0]}",
-                spec3, [{"method": "change_kernel", "kwargs": ret, "clone": False}], oracle_problems=bad3)
+    def p_kernel3d(spec3, steps):
+        a, b = build(spec3), build(spec3)
+        with patched_numpy(Draws(3, "hi")):
+            ret = a.change_kernel()
+        ret = {k: int(v) for k, v in ret.items()}
+        try:
+            b.change_kernel(**ret)
+            bad3 = forward_check(spec3, b, (1,))
+            if b.kernel_size != a.kernel_size:
+                bad3.append(f"twin kernels {b.kernel_size} != {a.kernel_size}")
+        except Exception as e:
+            bad3 = [fault_text(e)]
+        if bad3:
+            finding(FIND_KERNEL3D, f"Conv3d EvolvableCNN.change_kernel(**{ret}) - the kwargs the same method returned "
+                    f"on a twin network, which is what architecture_mutate hands to the critics - fails: {bad3[0]}",
+                    spec3, [{"method": "change_kernel", "kwargs": ret, "clone": False}], oracle_problems=bad3)
+    guarded("kernel3d", {"id": "cnn3d-probe", "kind": "cnn3d", "depth": 2, "cfg": cfg2},
+            [{"method": "change_kernel", "draw": "hi", "seed": 3, "clone": False}], p_kernel3d)
+
     # EvolvableLSTM.get_output_dense
-    lspec = by_id["lstm-small"]
-    try:
-        build(lspec).get_output_dense()
-    except Exception as e:
-        finding(FIND_LSTM_DENSE, f"EvolvableLSTM.get_output_dense() raises {type(e).__name__}: {e}", lspec, [],
-                call="get_output_dense")
+    def p_lstm(lspec, steps):
+        m = build(lspec)
+        try:
+            m.get_output_dense()
+        except Exception as e:
+            finding(FIND_LSTM_DENSE, f"EvolvableLSTM.get_output_dense() raises {fault_text(e)}", lspec, [],
+                    call="get_output_dense")
+    guarded("lstm-dense", by_id["lstm-small"], [], p_lstm)
     return policy, handled
 
 
 # ----------------------------------------------------------------------------- check
+def safely(chk: Check, suite: str, spec: dict, policy: dict, fn, *args, default=(1, 0)):
+    """last line of defence: an exception of the implementation that slipped through the per-call
+    guards is still a violation of this subject (with its traceback), not an infrastructure error"""
+    try:
+        return fn(*args)
+    except InfraError:
+        raise
+    except Exception as e:
+        msg = fault_text(e)                   # raises InfraError if the harness itself is at fault
+        import traceback
+        chk.violation(f"[{suite}] {spec.get('id')}: the implementation raised {msg}",
+                      {"suite": suite, "spec": spec, "steps": [], "policy": policy, "oracle_problems": [msg],
+                       "traceback": traceback.format_exc()[-1500:]})
+        return default
+
+
 def run(chk: Check) -> None:
     quick = chk.tier == "quick"
-    chk.rule = ("subjects: 11 small-bound building blocks (MLP, noisy MLP, CNN 2d, 2d+BatchNorm, 3d, LSTM, SimBa, ResNet, "
-                "multi-input over dict / tuple / dict-with-sequence spaces), 11 small-bound networks (Q, Rainbow, "
+    chk.rule = ("subjects: 13 small-bound building blocks (MLP, noisy MLP, CNN 2d square / tall / wide images, 2d+BatchNorm, 3d over 3 stacked agents, LSTM, SimBa, ResNet, "
+                "multi-input over dict / tuple / dict-with-sequence spaces), 12 small-bound networks (Q, Rainbow, "
                 "continuous Q, value, deterministic and stochastic actor over vector, image, sequence, dict, tuple "
-                "observations; MLP, CNN, LSTM, SimBa, ResNet, multi-input encoders), 16 default-bound subjects.  "
+                "observations and a multi-agent Conv3d critic; MLP, CNN, LSTM, SimBa, ResNet, multi-input encoders), 18 default-bound subjects (incl. non-square images).  "
                 "Exploration: every sequence of advertised methods x argument choices (no arguments with the numpy "
                 "draws at the low / high end of their range; explicit hidden_layer in {0,1,7}, sizes in {1,2}, "
-                "kernels in {1,2,3}) up to the depth stated per subject in notes (quick: 2 for blocks, 1 for "
+                "kernels in {1,3,7}) up to the depth stated per subject in notes (quick: 2 for blocks, 1 for "
                 "composites; thorough: 3 for blocks, 2 for composites, node caps apply), each step on a clone() of "
                 "a real object, then breadth-first over the reachable architecture graph (states identified by "
                 "constructor description).  Walks: length 12 (quick) / 50 (thorough), names from "
@@ -1233,7 +1396,8 @@ def run(chk: Check) -> None:
     ncorp = dcorp = 0
     for f in sorted((ROOT / "corpus" / "C03").glob("*.json")):
         c = json.loads(f.read_text())
-        res = run_chain(chk, c["spec"], c["steps"], policy)
+        res = safely(chk, "corpus:" + f.name, c["spec"], policy, run_chain, chk, c["spec"], c["steps"], policy,
+                     default={"problems": [], "diff": None})
         ncorp += 1
         chk.case([f.name], nontrivial=True, sample=None, tags=["corpus"])
         if res["problems"] or res["diff"] is not None:
@@ -1243,12 +1407,12 @@ def run(chk: Check) -> None:
     for spec in [s for s in subs if s["small"]]:
         heavy = spec["kind"] in ("multi", "net") or spec["kind"].startswith("cnn")
         if quick:
-            df, dg, cap = (1, 2, 140) if heavy else (2, 4, 500)
+            df, dg, cap = (1, 2, 120) if heavy else (2, 4, 500)
         elif heavy:
             df, dg, cap = 2, 3, 1000
         else:
             df, dg, cap = (2, 6, 2500) if spec["id"] == "mlp-noisy-small" else (3, 6, 9000)
-        n, d = explore(chk, "explore", spec, policy, df, dg, True, known, cap)
+        n, d = safely(chk, "explore", spec, policy, explore, chk, "explore", spec, policy, df, dg, True, known, cap)
         chk.suite("explore-" + spec["kind"], n, d)
     # walks
     length = 12 if quick else 50
@@ -1260,9 +1424,11 @@ def run(chk: Check) -> None:
             for clone_prob, twin in ((1.0, True), (0.3, False)):
                 if quick and spec["small"] and twin:
                     continue
-                n, d = walk(chk, "walk", dict(spec, seed=chk.rng.randrange(1000)), policy, length, known,
-                            clone_prob, twin)
+                wspec = dict(spec, seed=chk.rng.randrange(1000))
+                n, d = safely(chk, "walk", wspec, policy, walk, chk, "walk", wspec, policy, length, known,
+                              clone_prob, twin)
                 chk.suite("walk-" + spec["kind"], n, d)
+    flush_deferred(chk)
     if not quick:
         selftest(chk, policy, known)
 
@@ -1346,6 +1512,17 @@ def selftest(chk: Check, policy: dict, known: set) -> None:
 
 # ----------------------------------------------------------------------------- replay
 def replay(chk: Check, path: str) -> int:
+    try:
+        return _replay(chk, path)
+    except InfraError:
+        raise
+    except Exception as e:
+        print(f"the implementation raised {fault_text(e)}")
+        print(f"VIOLATION property=C03 replay={path}")
+        return 1
+
+
+def _replay(chk: Check, path: str) -> int:
     c = json.loads(open(path).read())
     c = c.get("replay", c)
     policy = c.get("policy", {"forward_head": True, "clamp_kernel": True})
